@@ -8,6 +8,7 @@ objects by the harness); the notions a reader has to agree with are in `Spec/PyS
 helper lemmas in `Lemmas/Template.lean`.
 -/
 import PybtexModel.Lemmas.Template
+import PybtexModel.Props.C05
 
 namespace Pybtex.Props
 open Pybtex Pybtex.RT Pybtex.Tmpl Pybtex.Tmpl.Spec
@@ -90,6 +91,20 @@ theorem C07_one_per_citation_nonvacuous :
              (s "A", s "2", s "A Abel.<newblock>On TeX things.<newblock>J, 2001."),
              (s "c", s "3", s "A Zed.<newblock>T.<newblock>J, 1999.")] := by decide +kernel
 
+/-- **No entry twice.** For a database whose entries are well formed (the C13 invariant of their
+field and person containers — what the reader builds, `C05_reader_wf`) no two formatted entries
+have the same key, even up to letter case (from `C05_no_dup`). -/
+theorem C07_no_duplicates (es : List PEntry) (hwf : ∀ e ∈ es, EntryWF e.toEntry) (items : Str → Option Item)
+    (cites : List Str) (mc : Int) (sorting : Sorting) (labels : Labels) (rep : List Report) (fs : List Formatted)
+    (h : formatBibliography es items cites mc sorting labels = (rep, .ok fs)) :
+    (fs.map fun f => lower f.key).Nodup := by
+  have hperm := (C07_one_per_citation es items cites mc sorting labels rep fs h).2.2.1
+  rw [hperm.nodup_iff]
+  have hnd := C05_no_dup (mkDb es) (mkDb_wf es hwf) cites mc
+  exact ((removeMissing_sublist (mkDb es) _).map lower).nodup hnd
+
+theorem C07_no_duplicates_nonvacuous : ∀ e ∈ entries, EntryWF e.toEntry := by decide
+
 /-- **Order, sorting style `none`.** The formatted entries come in the order of the resolved
 citations. -/
 theorem C07_order_none (es : List PEntry) (items : Str → Option Item) (cites : List Str) (mc : Int)
@@ -162,6 +177,12 @@ theorem C07_sort_generic {α : Type} (lt : α → α → Bool) (hirr : ∀ a, lt
     ∀ a, (sortBy lt l).filter (eqv lt a) = l.filter (eqv lt a) :=
   ⟨sortBy_perm lt l, sortBy_sorted ⟨hirr, htr, hneg⟩ l, fun a => sortBy_stable ⟨hirr, htr, hneg⟩ a l⟩
 
+theorem C07_sort_generic_nonvacuous :
+    (∀ a, keyLt a a = false) ∧ (∀ a b c, keyLt a b = true → keyLt b c = true → keyLt a c = true) ∧
+    (∀ a b c, keyLt a b = true → keyLt a c = true ∨ keyLt c b = true) ∧
+    (sortBy keyLt entries).map (·.key) = [s "A", s "b", s "c"] :=
+  ⟨keyLt_strictWeak.irrefl, keyLt_strictWeak.trans, keyLt_strictWeak.negtrans, by decide +kernel⟩
+
 theorem C07_order_ayt_nonvacuous :
     -- cited b, A, c: Abel sorts first; b and c have equal keys and keep their citation order
     (view (formatBibliography entries items [s "b", s "A", s "c"] 2 .authorYearTitle .number)).elim
@@ -189,6 +210,10 @@ theorem C07_number_labels (es : List PEntry) (items : Str → Option Item) (cite
   · rw [hlab, ← hls, hlen]; rfl
   · rw [hlab, ← hls]; exact numberLabels_nodup _
 
+theorem C07_number_labels_nonvacuous :
+    numberLabels 11 = [s "1", s "2", s "3", s "4", s "5", s "6", s "7", s "8", s "9", s "10", s "11"] := by
+  decide +kernel
+
 /-- **Alpha labels (restricted).** The labels are the base labels of `format_label`, in output
 order, run through the suffix loop; they are pairwise distinct PROVIDED (`alphaProviso`, a
 decidable condition on the list of base labels) no base label occurs more than 26 times and no
@@ -209,6 +234,11 @@ theorem C07_alpha_labels_partial (es : List PEntry) (items : Str → Option Item
 theorem C07_alpha_suffix_partial (base : List Str) (hp : alphaProviso base = true) :
     (alphaSuffix base base []).Nodup ∧ (alphaSuffix base base []).length = base.length :=
   ⟨alphaSuffix_nodup_top base hp, alphaSuffix_length _ _ _⟩
+
+theorem C07_alpha_suffix_partial_nonvacuous :
+    alphaProviso [s "ab", s "ab", s "abc", s "x"] = true ∧
+    alphaSuffix [s "ab", s "ab", s "abc", s "x"] [s "ab", s "ab", s "abc", s "x"] []
+      = [s "aba", s "abb", s "abc", s "x"] := by decide +kernel
 
 theorem C07_alpha_labels_partial_nonvacuous :
     alphaProviso [s "Zed99", s "Abe01", s "Zed99"] = true ∧
@@ -239,6 +269,14 @@ theorem C07_fuel_irrelevant (ctx : Ctx) (t : T) (n m : Nat) :
     (eval n ctx t ≠ .error .outOfFuel → n ≤ m → eval m ctx t = eval n ctx t) :=
   ⟨eval_fuel_agree, fun h hm => eval_mono rfl h m hm⟩
 
+theorem C07_fuel_irrelevant_nonvacuous :
+    -- with too little fuel the example template runs out of fuel, with enough more fuel changes nothing
+    (eval 4 (ctxOf entries (art "A" "Abel" "2001" "T") (item "A Abel")) tmpl).toOption.map toStr = none ∧
+    (eval 12 (ctxOf entries (art "A" "Abel" "2001" "T") (item "A Abel")) tmpl).toOption.map toStr
+      = some (s "A Abel.<newblock>T.<newblock>J, 2001.") ∧
+    (eval 50 (ctxOf entries (art "A" "Abel" "2001" "T") (item "A Abel")) tmpl).toOption.map toStr
+      = some (s "A Abel.<newblock>T.<newblock>J, 2001.") := by decide +kernel
+
 /-- **`optional` never propagates a missing field** (it yields the empty text instead). -/
 theorem C07_optional_never_missing (fuel : Nat) (ctx : Ctx) (cs : List T) (f : Str) :
     eval fuel ctx (.optional cs) ≠ .error (.missing f) :=
@@ -264,6 +302,14 @@ theorem C07_missing_required_eval (fuel : Nat) (ctx : Ctx) (t : T) :
   intro hall f h
   obtain ⟨lk, hm, -, hf⟩ := hs f h
   rw [hall lk hm] at hf; cases hf
+
+theorem C07_missing_required_eval_nonvacuous :
+    -- no `journal`: reported, `journal` is a required node whose lookup fails; `note`, `year` are optional
+    (match eval 9 (ctxOf [misc "m" "K"] (misc "m" "K") ⟨tmpl, [(s "author", [.lit (.str (s "X"))])]⟩)
+        (.join (.str []) (.str []) (.str []) [.optional [.field (s "note") .none false], .field (s "journal") .none false]) with
+      | .error e => some e | .ok _ => none) = some (.missing (s "journal")) ∧
+    lookupFails (ctxOf [misc "m" "K"] (misc "m" "K") ⟨tmpl, []⟩) (.field (s "journal")) = true ∧
+    lookupFails (ctxOf [misc "m" "K"] (misc "m" "K") ⟨tmpl, []⟩) (.field (s "key")) = false := by decide +kernel
 
 /-- **Missing field, evaluator level (exact).** For some fuel the evaluation fails with
 `FieldIsMissing(f)` if and only if `Missing ctx t f`: going through the template left to right —
@@ -356,25 +402,26 @@ theorem C07_terminated_nonvacuous :
 
 /-- **Protected case.** (1) `Text.from_latex` puts every character inside braces under one
 `Protected` per brace level (and drops the braces).  (2) `lower`, `upper`, `capfirst`,
-`capitalize` — hence the `apply_func`s `lower` / `capitalize` of `field` nodes — leave the
+`capitalize`, `dashify` — all `apply_func`s of `field` nodes in the shipped styles — leave the
 protected atoms (characters with their markup) exactly as they are.  (3) A `sentence` node
 (`capfirst`, `capitalize`, `add_period`) leaves the protected atoms of the joined children as
-they are: the period it may append is not protected.  (4) So the value of a `field` node with
-`apply_func` none / lower / capitalize has exactly the protected atoms of the brace structure of
-the field's value. -/
+they are: the period it may append is not protected.  (4) So the value of a `field` node has
+exactly the protected atoms of the brace structure of the field's value. -/
 theorem C07_protected_case :
     (∀ v r, fromLatex v = .ok r → sem [] r = flatLatex 0 v) ∧
     (∀ t, protAtoms (sem [] (lowerT t)) = protAtoms (sem [] t) ∧
           protAtoms (sem [] (upperT t)) = protAtoms (sem [] t) ∧
           protAtoms (sem [] (RT.capfirst t)) = protAtoms (sem [] t) ∧
-          protAtoms (sem [] (RT.capitalize t)) = protAtoms (sem [] t)) ∧
+          protAtoms (sem [] (RT.capitalize t)) = protAtoms (sem [] t) ∧
+          protAtoms (sem [] (dashify t)) = protAtoms (sem [] t)) ∧
     (∀ fuel ctx cf cap ap sep cs r, eval (fuel + 1) ctx (.sentence cf cap ap sep cs) = .ok r →
       ∃ parts, evalList fuel ctx cs = .ok parts ∧
         protAtoms (sem [] r) = protAtoms (sem [] (joinParts sep sep sep parts))) ∧
-    (∀ fuel ctx name fn r, fn ≠ .dashify → eval fuel ctx (.field name fn false) = .ok r →
+    (∀ fuel ctx name fn r, eval fuel ctx (.field name fn false) = .ok r →
       ∃ v, ctx.entry.findField name ctx.db = some v ∧ protAtoms (sem [] r) = protAtoms (flatLatex 0 v)) := by
   refine ⟨fun v r h => sem_fromLatex h,
-    fun t => ⟨protAtoms_lowerT t, protAtoms_upperT t, protAtoms_capfirst t, protAtoms_capitalize t⟩, ?_, ?_⟩
+    fun t => ⟨protAtoms_lowerT t, protAtoms_upperT t, protAtoms_capfirst t, protAtoms_capitalize t,
+      protAtoms_dashify t⟩, ?_, ?_⟩
   · intro fuel ctx cf cap ap sep cs r h
     rw [eval_sentence] at h
     split at h
@@ -382,7 +429,7 @@ theorem C07_protected_case :
     · rename_i parts hp
       simp only [Except.ok.injEq] at h; subst h
       exact ⟨parts, hp, protAtoms_sentenceText _ _ _ _ _⟩
-  · intro fuel ctx name fn r hfn h
+  · intro fuel ctx name fn r h
     cases fuel with
     | zero => simp [eval] at h
     | succ n =>
@@ -399,7 +446,7 @@ theorem C07_protected_case :
           rw [← sem_fromLatex hx]
           cases fn with
           | none => rfl
-          | dashify => exact absurd rfl hfn
+          | dashify => exact protAtoms_dashify x
           | lower => exact protAtoms_lowerT x
           | capitalize => exact protAtoms_capitalize x
 
@@ -422,7 +469,8 @@ parts) has a value — the field exists (own or inherited), parses, and is passe
 node's `apply_func` — and the text of that value occurs in `str(r)` as a contiguous piece:
 literally, or up to letter case when the node is under a `sentence` with `capfirst`/`capitalize`.
 The text of the value is the field's string with the braces removed (`apply_func` none), resp.
-equal to it up to letter case (`lower`, `capitalize`).  Lifted to the pipeline: this holds for
+equal to it up to letter case (`lower`, `capitalize`), resp. has the same atoms apart from the
+character `-` and the symbol `ndash` (`dashify`).  Lifted to the pipeline: this holds for
 every formatted entry and its template. -/
 theorem C07_field_coverage :
     (∀ fuel ctx t r, eval fuel ctx t = .ok r → ∀ o ∈ printed fuel ctx t,
@@ -431,7 +479,8 @@ theorem C07_field_coverage :
       ∃ v, ctx.entry.findField o.name ctx.db = some v ∧
         (o.raw = true → o.fn = .none → toStr val = v) ∧
         (o.raw = false → o.fn = .none → toStr val = stripBraces v) ∧
-        (o.raw = false → (o.fn = .lower ∨ o.fn = .capitalize) → lower (toStr val) = lower (stripBraces v))) ∧
+        (o.raw = false → (o.fn = .lower ∨ o.fn = .capitalize) → lower (toStr val) = lower (stripBraces v)) ∧
+        (o.raw = false → o.fn = .dashify → nonDash (sem [] val) = nonDash (flatLatex 0 v))) ∧
     (∀ es items cites mc sorting labels rep fs,
       formatBibliography es items cites mc sorting labels = (rep, .ok fs) →
       ∀ f ∈ fs, ∃ e ∈ resolvedEntries es cites mc, ∃ it, items e.key = some it ∧ f.key = e.key ∧
@@ -448,6 +497,9 @@ theorem C07_field_coverage_nonvacuous :
         (fun o => (o.name, o.caseChanged)) = [(s "title", true), (s "journal", false), (s "year", false)] ∧
     (eval evalFuel (ctxOf entries (art "A" "Abel" "2001" "On {TeX} things") (item "A Abel")) tmpl).toOption.map toStr
       = some (s "A Abel.<newblock>On TeX things.<newblock>J, 2001.") ∧
-    stripBraces (s "On {TeX} things") = s "On TeX things" := by decide +kernel
+    stripBraces (s "On {TeX} things") = s "On TeX things" ∧
+    -- dashify: runs of unprotected hyphens become one en-dash symbol, a protected hyphen stays
+    (match fromLatex (s "11--20, 3{-}4") with | .ok r => some (toStr (dashify r)) | .error _ => none)
+      = some (s "11<ndash>20, 3-4") := by decide +kernel
 
 end Pybtex.Props
